@@ -767,3 +767,11 @@ for _m, _op in (("not", "Not"), ("unary_minus", "UnaryMinus")):
              (f"{_m}.fold1.non_constant_rebuilt_same_operator", ["C04", "C08"],
               f"!(instruction is Variable) ==> r == Instruction::UnaryOperation(Arc::new(UnaryOperation {{ instruction, op: UnaryOperator::{_op} }}))"),
          ])
+
+# ---------------------------------------------------------------- == / != operators (C19) ---
+for _m, _neg in (("equal", ""), ("not_equal", "!")):
+    unit(id=f"{_m}.exec", src=BINOP, path=[("mod", _m), ("fn", "exec")], mod=_m,
+         ensures=[
+             (f"{_m}.exec.is_{'the_negation_of_' if _neg else ''}value_equality", ["C19"],
+              f"r == Variable::Bool({_neg}var_eq(lhs, rhs))"),
+         ])
